@@ -58,7 +58,14 @@ func (g *gen) operand(d int, allowPred bool) *xp.E {
 	case 1:
 		return xp.Lit([]string{"a", "", "1", "x y", "and", "-"}[g.pick(6, "lit")])
 	case 2:
-		switch g.pick(4, "fn") {
+		switch g.pick(7, "fn") {
+		case 4:
+			// every argument position of a call is a full expression: the operators of every level may stand in it bare
+			return xp.Call("substring", g.expr(d-1, allowPred), g.expr(d-1, allowPred), g.expr(d-1, allowPred))
+		case 5:
+			return xp.Call("translate", g.expr(d-1, allowPred), g.expr(d-1, allowPred), g.expr(d-1, allowPred))
+		case 6:
+			return xp.Call([]string{"contains", "starts-with", "substring-before"}[g.pick(3, "fn2")], g.expr(d-1, allowPred), g.expr(d-1, allowPred))
 		case 0:
 			return xp.Call("true")
 		case 1:
